@@ -319,9 +319,9 @@ async fn exclusive_enum_impl(maxlen: usize, name: &str) {
 						}
 						let mut r = crate::TreeBuilder::new().with_path(dir.path().to_path_buf()).build();
 						// a dropped (not closed) store lets go of the directory when its background tasks have wound
-						// down: allow it 3 s before calling the directory stuck
+						// down: allow it 20 s (loaded machine) before calling the directory stuck
 						let mut waited_ms = 0;
-						while r.is_err() && !other_live && waited_ms < 3000 {
+						while r.is_err() && !other_live && waited_ms < 20000 {
 							tokio::time::sleep(std::time::Duration::from_millis(50)).await;
 							waited_ms += 50;
 							r = crate::TreeBuilder::new().with_path(dir.path().to_path_buf()).build();
